@@ -540,7 +540,6 @@ def _case_crash_write(case, ctx):
             raise core.Inconclusive(f"strace run ended rc={r['rc']} without being killed: {_stderr_tail(r)}")
         ctx.note(f"writes_W_{which}", writes)
         if k == KMAX_WRITE[which]:
-            _S["w_counted"] = True
             ctx.count(f"dry_run_counted_W_{which}")
         if _judge_child(ctx, r, ref, {"state": "cold", "stage": f"writer under strace, not killed (K={k} > W={writes})"}):
             ctx.ok(["crash_write", which, "beyond last write"], nontrivial=False)
@@ -974,11 +973,27 @@ def _signature(log: str, n: int) -> tuple[str, str, int, list]:
     return sha(seq), sha(coarse), len(seq), meta
 
 
+def _big_files(data: str) -> list[str]:
+    """Three data files of 100..300 KB (first ones by path) - their pickles span several 64 KiB frames."""
+    if ("big", data) not in _S:
+        out = []
+        for dev in sorted(os.listdir(os.path.join(data, "devices"))):
+            ddir = os.path.join(data, "devices", dev)
+            for f in sorted(os.listdir(ddir)):
+                if f.endswith(".json") and 100_000 <= os.path.getsize(os.path.join(ddir, f)) <= 300_000:
+                    out.append(os.path.join(ddir, f))
+            if len(out) >= 3:
+                break
+        _S[("big", data)] = out[:3]
+    return _S[("big", data)]
+
+
 def _case_sched(case, ctx):  # noqa: C901
     n, state, plan = case["n"], case["state"], case["plan"]
     queries = "full" if n <= 4 else "light"
     data = None
     mutation = None
+    what_state = "stale:edit-device-yaml" if state == "stale" else state
     if state == "stale":
         data = _scratch_data(ctx)
         base = _reference(ctx, data=data, key="ref-scratch", queries="full")
@@ -1019,9 +1034,15 @@ def _case_sched(case, ctx):  # noqa: C901
         else:
             ref = _reference(ctx, queries=queries) if queries != "full" else ref_for_prep
         procs = []
+        extra_cfg: dict = {}
+        if plan == "wstall":
+            # multi-frame data cache from the first write on, children at different stages (staggered first use)
+            extra_cfg["pre_files"] = _big_files(data or os.path.join(core.repo_root(), "spsdk", "data"))
         for i in range(n):
-            procs.append(_spawn({"mode": "digest", "queries": queries, "idx": i, "rot": i, "log": log, "barrier": bdir, "sched": sched},
-                                cache, wdir, data, wrapper))
+            if plan == "wstall" and i:
+                extra_cfg["start_delay_ms"] = ctx.rng.choice([0, 0, 30, 100, 250, 600])
+            procs.append(_spawn(dict({"mode": "digest", "queries": queries, "idx": i, "rot": i, "log": log, "barrier": bdir, "sched": sched},
+                                     **extra_cfg), cache, wdir, data, wrapper))
         if clearing:
             procs.append(_spawn({"mode": "clear", "idx": n, "log": log, "barrier": bdir, "sched": sched,
                                  "rounds": ctx.rng.choice([1, 2, 4]), "gap_ms": ctx.rng.choice([0, 5, 40, 200])}, cache, wdir, data))
@@ -1054,7 +1075,7 @@ def _case_sched(case, ctx):  # noqa: C901
         ctx.count("schedule_events", nev)
         ctx.note("ilv", sig)
         ctx.note("ilvc", sigc)
-        what = {"state": state, "n": n, "plan": {k: v for k, v in case.items() if k not in ("kind", "n", "state")},
+        what = {"state": what_state, "n": n, "plan": {k: v for k, v in case.items() if k not in ("kind", "n", "state")},
                 "queries": queries, "events": nev, "interleaving": sig}
         ok = True
         died = []
